@@ -460,6 +460,11 @@ func runRestoreCase(self string, c Case) result {
 		func() {
 			defer os.RemoveAll(dir)
 			where := fmt.Sprintf("%s: restore (%s, %d chunks done) crash at %q", c.Backend, r.Last, r.J, p)
+			defer func() {
+				if pv := recover(); pv != nil {
+					res.viol = append(res.viol, fmt.Sprintf("%s: PANIC (reopen / read-back / retry): %v", where, pv))
+				}
+			}()
 			ndb, err := openDB(c.Backend, dir)
 			if err != nil {
 				res.viol = append(res.viol, where+": database does not reopen: "+err.Error())
